@@ -516,6 +516,104 @@ def check_overlap(run, scs, fixed_mode):
     return stats
 
 
+# ---------------------------------------------------------------- the controllers' owner-deletion helper
+
+PATCHES = {"ok": "patch_ok", "notfound": "patch_not_found", "conflict": "patch_conflict", "internal": "patch_internal_error",
+           "lost": "patch_lost_response"}
+RETS = {"nil": "RetNil", "free": "RetFreeErr", "patch": "RetPatchErr"}
+
+
+def FIN(o, patch="ok", fin=True, out="ok"):
+    return {"op": "finalize", "o": o, "patch": patch, "fin": fin, "out": out}
+
+
+def ENS(o, patch="ok", fin=False):
+    return {"op": "ensure", "o": o, "patch": patch, "fin": fin}
+
+
+def fin_scenarios(r, tier):
+    """the real FreeCacheAndRemoveFinalizer for owners with 1..n watched kinds, sharing kinds with other owners,
+    every answer to the finalizer patch, then reads / retries / another watcher"""
+    pres = [[W(0, 0)], [W(0, 0), W(0, 1)], [W(0, 0), W(1, 0)], [W(0, 0), W(0, 1), W(1, 0)], [W(0, 0), W(0, 1), W(1, 1), W(1, 0)],
+            [W(1, 1)], [W(0, 0), W(0, 1), W(0, 2), W(1, 2)]]
+    tails = [[G(0), L(1), O(0)], [FIN(0), G(0)], [W(1, 0), FIN(1), L(0)]]
+    out = []
+    for pre in pres:
+        for patch in PATCHES:
+            for fin in (True, False):
+                if not fin and patch != "ok":
+                    continue
+                for tail in tails:
+                    out.append(scen([ENS(0, fin=False)] + pre + [FIN(0, patch, fin)] + tail, 2, 3))
+        out.append(scen(pre + [FIN(0, "ok", True, "del"), O(0), FIN(0, "notfound", True), O(0), G(0)], 2, 3))
+        out.append(scen([ENS(0, "conflict"), ENS(0, "ok"), ENS(0, fin=True)] + pre + [FIN(0, "lost"), FIN(1, "internal"), FIN(1)], 2, 3))
+    for _ in range(0 if tier == "quick" else 300):
+        ops = []
+        for _ in range(r.randint(3, 10)):
+            x = r.random()
+            if x < 0.45:
+                ops.append(W(r.randrange(3), r.randrange(3), r.choice(["ok", "ok", "ok", "get", "hf"]), r.randrange(3)))
+            elif x < 0.7:
+                ops.append(FIN(r.randrange(3), r.choice(list(PATCHES)), r.random() < 0.85, "del" if r.random() < 0.1 else "ok"))
+            elif x < 0.8:
+                ops.append(ENS(r.randrange(3), r.choice(list(PATCHES)), r.random() < 0.3))
+            else:
+                ops.append(r.choice([G, L, O])(r.randrange(3)))
+        out.append(scen(ops, 2, 3))
+    return out
+
+
+def fin_term(sc, obs):
+    steps = []
+    for op, o in zip(sc["ops"], obs["steps"]):
+        sent, ret = cB(bool(o.get("sent"))), RETS.get(o.get("ret") or "nil")
+        if op["op"] == "finalize":
+            fop = "FFinalize %s %s %s %s" % (cN(op["o"]), c_out(op), cB(op["fin"]), PATCHES[op["patch"]])
+        elif op["op"] == "ensure":
+            fop = "FEnsure %s %s %s" % (cN(op["o"]), cB(op["fin"]), PATCHES[op["patch"]])
+        else:
+            fop = "FOp (%s)" % c_op(op)
+        steps.append(cP(fop, "FObs (%s) %s %s" % (c_obs(o), sent, ret)))
+    return "(%s : fin_case)" % cP(cL([cN(h) for h in range(sc["handlers"])]), cL([cN(g) for g in range(sc["kinds"])]), cL(steps))
+
+
+def check_fin(run, scs, fixed_mode):
+    outs = vlib.run_harness("cache", scs, par=8)
+    terms, idx = [], []
+    for i, (sc, o) in enumerate(zip(scs, outs)):
+        if "obs" not in o:
+            run.violation("corr:C12/harness error", {"correspondence": "harness (finalizer helper)", "scenario": sc, "out": o}, False)
+            continue
+        if any(st["err"] not in ERRS for st in o["obs"]["steps"]):
+            run.violation("corr:C12/unexpected error class", {"correspondence": "error classes", "scenario": sc, "impl": o["obs"]}, False)
+            continue
+        terms.append(fin_term(sc, o["obs"]))
+        idx.append(i)
+    res, logs = vlib.judge_cases("C12", IMPORTS, "judge_fin", terms, 6, shard=60, tag="fin")
+    for l in logs:
+        run.violation("corr:C12/coq-eval", {"correspondence": "coq evaluation failed", "log": l}, False)
+    n = 0
+    for i, v in zip(idx, res):
+        if v is None:
+            continue
+        n += 1
+        sc, ob = scs[i], outs[i]["obs"]
+        c = classify(v, has_start_failure(sc["ops"]), fixed_mode)
+        if c is not None:
+            ident, concrete = c
+            if concrete and ident != IDENT_FC12:
+                ident = "C12 owner deletion (FreeCacheAndRemoveFinalizer) leaves the owner's watches or informers behind: clause(s) " + \
+                        "+".join(cl for cl, b in zip(CLAUSES, v[2:]) if not b)
+            rep = {"scenario": sc, "impl": ob, "judge_fin(agree_current,agree_fixed,refs,started,stopped,read)": list(v)}
+            if not concrete:
+                rep["correspondence"] = "C12Corr.agree_fin"
+            run.violation(ident, rep, concrete)
+        run.classes.add(("fin",) + tuple((op["op"], op.get("patch", ""), op.get("fin", ""), o["err"], len(o["ev"] or []), o.get("ret", ""))
+                                         for op, o in zip(sc["ops"], ob["steps"])))
+    run.cov["evaluations"] += n
+    return {"scenarios": n, "helper_calls": sum(1 for s in scs for op in s["ops"] if op["op"] in ("finalize", "ensure"))}
+
+
 # ---------------------------------------------------------------- the real InformerMap
 
 IDENT_READ = ("C12 dynamic cache read of a watched kind does not return the object the informer holds "
@@ -572,6 +670,29 @@ def version_scenarios(r, tier):
     return [{"handlers": 2, "kinds": 5, "ops": ops + REAL_TAIL} for ops in c]
 
 
+def nomatch_scenarios(r, tier):
+    """a kind the RESTMapper does not know yet during the first Watch (CRD not installed), known on the retry"""
+    c = [
+        [RW(0, 1, "nomatch"), RW(0, 1), RW(0, 0), F(0)],
+        [RW(0, 0), RW(0, 1, "nomatch"), L(1), F(0), G(0)],
+        [RW(0, 1, "nomatch"), RW(1, 1, "nomatch"), RW(1, 1), G(1), F(1)],
+        [RW(0, 0), RW(0, 1, "nomatch"), RW(0, 1), RW(1, 1), F(0), L(1), L(0)],
+        [RW(0, 1, "nomatch"), G(1), L(1), RW(1, 1), F(1)],
+    ]
+    for _ in range(0 if tier == "quick" else 60):
+        ops = []
+        for _ in range(r.randint(3, 7)):
+            x = r.random()
+            if x < 0.6:
+                ops.append(RW(r.randrange(2), r.randrange(2), r.choice(["ok", "ok", "nomatch", "nomatch", "hang"])))
+            elif x < 0.85:
+                ops.append(F(r.randrange(2)))
+            else:
+                ops.append(r.choice([G, L])(r.randrange(2)))
+        c.append(ops)
+    return [{"handlers": 2, "kinds": 2, "ops": ops + REAL_TAIL[:2]} for ops in c]
+
+
 def real_scenarios(r, tier):
     c = [
         [RW(0, 0, "hang"), RW(0, 0), G(0), F(0), G(0)],
@@ -598,7 +719,7 @@ def real_scenarios(r, tier):
                 ops.append(r.choice([G, L])(r.randrange(2)))
         c.append(ops)
     return ([{"handlers": 2, "kinds": 2, "ops": ops + REAL_TAIL[:2]} for ops in c]
-            + scope_scenarios(r, tier) + version_scenarios(r, tier))
+            + scope_scenarios(r, tier) + version_scenarios(r, tier) + nomatch_scenarios(r, tier))
 
 
 def run_real(scs):
@@ -616,7 +737,7 @@ def run_real(scs):
 
 def real_model_op(op):
     if op["op"] == "watch":
-        return "Watch %s %s %s" % (cN(op["o"]), cN(op["g"]), "informer_sync_fails" if op.get("list") in ("hang", "fail") else "ok")
+        return "Watch %s %s %s" % (cN(op["o"]), cN(op["g"]), {"hang": "informer_sync_fails", "fail": "informer_sync_fails", "nomatch": "informer_get_fails"}.get(op.get("list"), "ok"))
     return c_op(op)
 
 
@@ -694,7 +815,7 @@ def check_real(run, scs, fixed_mode, pid="C12", only_reads_as=None):
             run.violation("C12 real InformerMap: no informer runs for a GVK a live owner still watches" if missing else
                           "C12 real InformerMap: an informer keeps running for a kind nobody watches", rep, True)
         elif not deliv_ok:
-            if a_cur and any(op.get("list") in ("hang", "fail") for op in sc["ops"]):
+            if a_cur and any(op.get("list") in ("hang", "fail", "nomatch") for op in sc["ops"]):
                 run.violation(IDENT_FC12, rep, True)
             else:
                 run.violation("C12 real InformerMap: a running informer does not deliver events to all registered handlers", rep, True)
@@ -707,7 +828,7 @@ def check_real(run, scs, fixed_mode, pid="C12", only_reads_as=None):
                                           for op, st in zip(sc["ops"], ob["steps"])))
     run.cov["evaluations"] += n
     return {"scenarios": n, "operations": sum(len(s["ops"]) for s in scs),
-            "with_hanging_or_failing_LIST": sum(1 for s in scs if any(op.get("list") in ("hang", "fail") for op in s["ops"])),
+            "with_hanging_or_failing_LIST_or_unknown_kind": sum(1 for s in scs if any(op.get("list") in ("hang", "fail", "nomatch") for op in s["ops"])),
             "reads_through_the_cache": sum(len(st["gets"]) + len(st["lists"]) for o in outs if "obs" in o for st in o["obs"]["steps"])}
 
 
@@ -928,6 +1049,10 @@ def check(run, tier, seed, replay=None):
         check_real(run, [json.load(open(replay))["replay"]["scenario"]], fixed_mode)
         run.cov["rule"] = "replay of one recorded real-InformerMap scenario"
         return
+    if replay and any(op["op"] in ("finalize", "ensure") for op in json.load(open(replay))["replay"].get("scenario", {}).get("ops", [])):
+        check_fin(run, [json.load(open(replay))["replay"]["scenario"]], fixed_mode)
+        run.cov["rule"] = "replay of one recorded finalizer-helper scenario"
+        return
     if replay and "calls" in json.load(open(replay))["replay"].get("scenario", {}):
         check_overlap(run, [json.load(open(replay))["replay"]["scenario"]] * 3, fixed_mode)
         run.cov["rule"] = "replay of one recorded overlapping-call scenario, 3 runs"
@@ -939,10 +1064,10 @@ def check(run, tier, seed, replay=None):
         scs = corpus() + [scen([x]) for x in a] + [scen([x, y]) for x in a for y in a]
         a28 = alphabet()
         if tier == "quick":      # quick: a sample of the length-3 sequences inside Coq (all of them are in the sweep below)
-            scs += [scen([r.choice(a28) for _ in range(3)]) for _ in range(4000)]
+            scs += [scen([r.choice(a28) for _ in range(3)]) for _ in range(2500)]
         else:
             scs += [scen([x, y, z]) for x in a28 for y in a28 for z in a28]
-        scs += random_scenarios(r, 400 if tier == "quick" else 4000, 40)
+        scs += random_scenarios(r, 300 if tier == "quick" else 4000, 40)
     flat = judge_flat(run, scs, "flat")
     for sc, obs, v in flat:
         report(sc, obs, v)
@@ -1023,6 +1148,9 @@ def check(run, tier, seed, replay=None):
     run.cov["overlapping_calls"] = ostats
     t_overlap = time.time() - t3
 
+    # 3b. the controllers' owner-deletion helper on the real Cache
+    run.cov["finalizer_helper"] = check_fin(run, fin_scenarios(r, tier), fixed_mode)
+
     # 4. the real InformerMap and real informers on a fake API server
     t4 = time.time()
     run.cov["real_informer_map"] = check_real(run, real_scenarios(r, tier), fixed_mode)
@@ -1041,7 +1169,7 @@ def check(run, tier, seed, replay=None):
 
     run.cov["rule"] = (
         "real dynamiccache.Cache + scripted informer map + real cache sources; corpus (incl. the F-C12 witness), all "
-        "sequences of length <= 2 over 30 operations and of length 3 over 28 operations (quick: 4000 sampled), seeded random sequences of length <= 40 over <= 3 owners x 3 kinds x "
+        "sequences of length <= 2 over 30 operations and of length 3 over 28 operations (quick: 2500 sampled), seeded random sequences of length <= 40 over <= 3 owners x 3 kinds x "
         "<= 3 handlers: judged inside Coq; all sequences of length %s over (owners, kinds) = %s x {ok, Get fails "
         "early/after start, handler 0/1 registration fails, Delete fails} (OwnersForGKV of every kind is called after "
         "every operation; Free visits kinds in Go's map order, both branches are followed as they occur): "
@@ -1052,9 +1180,12 @@ def check(run, tier, seed, replay=None):
         "Delete failure) is held before/after the effect of each of its informer-map / AddEventHandler calls while call B "
         "(thorough: also B and C) is started on another goroutine and returns or blocks; the joint outcome is judged inside "
         "Coq by lin_agree (some serial order of the model) and the final-state monitor; distinct overlap classes = (A, hook, "
-        "others, error classes) of cases in which another call returned while A was held; real InformerMap: the real Cache "
-        "on the real InformerMap and client-go informers over a fake API server whose LIST hangs/fails during chosen Watch "
-        "calls (150 ms deadline); per operation, after a bounded wait: open WATCH streams per kind, handlers reached by an "
+        "others, error classes) of cases in which another call returned while A was held; owner deletion: the real "
+        "controllers.FreeCacheAndRemoveFinalizer / EnsureCachedFinalizer on the real Cache with every answer to the finalizer "
+        "patch (ok, NotFound, Conflict, InternalError, lost response), owners with 1-3 kinds sharing kinds with others, "
+        "judged inside Coq by judge_fin; real InformerMap: the real Cache "
+        "on the real InformerMap and client-go informers over a fake API server whose LIST hangs/fails or whose RESTMapper does not "
+        "know the kind yet during chosen Watch calls (150 ms deadline); per operation, after a bounded wait: open WATCH streams per kind, handlers reached by an "
         "event sent down the streams, OwnersForGKV; judged inside Coq by judge_real" %
         ("/".join(str(c[2]) for c in configs), "/".join("%dx%d" % (c[0], c[1]) for c in configs)))
     run.cov["trusted_base"] = run.cov.get("trusted_base", []) + [
